@@ -112,7 +112,6 @@ func c02Alphabet(s *sessSys) []sessReq {
 	return out
 }
 
-
 func c02Oracle(c *stepCtx) {
 	s := c.sys
 	lbl := c.req.Label
@@ -294,7 +293,6 @@ func TestVerifC02(t *testing.T) {
 	c02Sweep(res, nil)
 	res.Extra["bfs_depth"] = depth
 }
-
 
 // c02Sweep: every 24-bit sequence number (thorough) / boundary set + every 251st (quick) on stateless requests.
 func c02Sweep(res *vResult, replay []seqOp) {
